@@ -215,6 +215,12 @@ def canon(inter, look="all"):
                     out[k] = ("f", tuple(vals))
                 elif actions is not None and len(actions):
                     out[k] = ("f", tuple(canon_val(v(a)) for a in actions))
+                    if type(v).__name__ in ("DiscreteReward", "BinaryReward", "HammingReward"):
+                        # coba's own (pure) reward objects are also asked about an action that is not among the listed ones
+                        try:
+                            out[k] += (canon_val(v("__an_action_that_is_not_listed__")),)
+                        except Exception as e:
+                            out[k] += (("err", type(e).__name__),)
                 else:
                     out[k] = ("f0", type(v).__name__)
             except Exception as e:
@@ -257,6 +263,8 @@ def gen_src(rng):
         return ["bandit", {"n_interactions": n, "n_actions": 2 + rng.randrange(3), "seed": rng.randrange(1, 30)}]
     if k == "tagged":
         kw = {"tag": "T", "n": n, "n_actions": 2 + rng.randrange(2), "extra": rng.random() < 0.3}
+        if rng.random() < 0.3:
+            kw["reward_obj"] = rng.choice(["discrete_default", "discrete_map", "binary"])
         if rng.random() < 0.35 and n > 0:
             kw["interrupt_at"] = weighted(rng, [(0, 1), (1, 1), (min(n - 1, 24), 1), (min(n - 1, 25), 2), (min(n - 1, 26), 1), (rng.randrange(n), 3)])
         return ["tagged", kw]
@@ -521,7 +529,10 @@ class C04:
             rewritten = "grounded" in names and any(n not in keeps_actions for n in names[names.index("grounded") + 1:])
             try:
                 K.INTERRUPTS_ENABLED = False
-                order_free = (not rewritten) and [canon(i, "rev") for i in build_env(cfg, {}).read()] == R
+                # (an outcome function that raises for the actions it is asked about - a reward mapping behind a filter that rewrote the
+                #  actions into unhashable ones - gives no values to compare a partial look with either)
+                raises = any(isinstance(v, tuple) and v and v[0] == "f-err" for i in R for v in i.values())
+                order_free = (not rewritten) and (not raises) and [canon(i, "rev") for i in build_env(cfg, {}).read()] == R
             except Exception:
                 order_free = False
             K.INTERRUPTS_ENABLED = True
